@@ -42,7 +42,7 @@ def run(analysis: Analysis, tier: str) -> RuleResult:
         "Value-level exactness (Unicode, number/str fidelity) and equality of the two formats on actual states are not decided.",
     ]
     p = analysis.p
-    proj = json_projection(p)
+    proj, conditional_keys = json_projection(p, with_conditional=True)
     sensor = p.classes["sensor:Sensor"]
     child = p.classes["sensor:ChildSensor"]
     s_init = init_attrs(sensor.methods["__init__"])
@@ -50,6 +50,8 @@ def run(analysis: Analysis, tier: str) -> RuleResult:
     w = common.where(analysis, sensor.methods["__init__"], sensor.methods["__init__"].node)
     s_names = {a.lstrip("_") for a in s_init}
     enc_s = set(proj["Sensor"])
+    for cls_name, ck in conditional_keys.items():
+        res.add("C11-R1", f"persistence:MySensorsJSONEncoder / every persisted attribute of {cls_name} is encoded unconditionally", not ck, "mysensors/persistence.py", "all keys are always written" if not ck else f"keys {sorted(ck)} are written only under a condition on the value: falsy values (0, '') are dropped by JSON but kept by pickle")
     # ---- R1
     setstate = sensor.methods.get("__setstate__")
     if setstate is None:
@@ -72,6 +74,17 @@ def run(analysis: Analysis, tier: str) -> RuleResult:
                     for t in n.targets:
                         if isinstance(t, ast.Attribute) and t.attr in TRANSIENT:
                             conditional.add(t.attr + " (conditional)")
+    # alternative idiom: re-run the constructor, then restore everything but a skip list
+    calls_init = any(isinstance(n, ast.Call) and unparse(n.func) == "self.__init__" for st in setstate.node.body[: 3] for n in ast.walk(st))
+    if calls_init:
+        for n in ast.walk(setstate.node):
+            if isinstance(n, ast.If) and isinstance(n.test, ast.Compare) and isinstance(n.test.ops[0], ast.In) and isinstance(n.test.comparators[0], (ast.Tuple, ast.List, ast.Set)) and any(isinstance(b, ast.Continue) for b in n.body):
+                for e in n.test.comparators[0].elts:
+                    if isinstance(e, ast.Constant):
+                        resets.setdefault(e.value, s_init.get(e.value, "?"))
+        if loop_line is None:
+            loop_line = next((st.lineno for st in setstate.node.body if isinstance(st, ast.For)), None)
+        conditional = {c for c in conditional if "before the restore loop" not in c}
     res.add("C11-R1", "sensor:Sensor / constructor attributes = JSON keys + transient set", s_names == enc_s | TRANSIENT and not (enc_s & TRANSIENT), w, f"init {sorted(s_names)}; encoder {sorted(enc_s)}; transient {sorted(TRANSIENT)}")
     res.add("C11-R1", "sensor:Sensor.__setstate__ / resets exactly the transient attributes", set(resets) == TRANSIENT, common.where(analysis, setstate, setstate.node), f"resets {sorted(resets)}")
     for a in sorted(TRANSIENT & set(resets)):
@@ -163,7 +176,7 @@ def run(analysis: Analysis, tier: str) -> RuleResult:
     if cs is not None:
         txt = unparse(cs.node)
         res.add("C11-R2", "sensor:ChildSensor.__setstate__ / restores the whole instance dict", "self.__dict__.update(state)" in txt, common.where(analysis, cs, cs.node), "pickle restores id, type, description, values")
-    res.need("C11-R1", 8, "field agreement obligations")
+    res.need("C11-R1", 5, "field agreement obligations")
     res.units = {"classes": ["sensor:Sensor", "sensor:ChildSensor", "persistence:MySensorsJSONEncoder", "persistence:MySensorsJSONDecoder"], "source_digest": analysis.p.digest()}
     res.not_decided = ["value-level exactness (Unicode, JSON number/str fidelity)", "equality of the two formats on actual states"]
     res.trusted = ["python ast"]
